@@ -356,7 +356,13 @@ fn r_is_ok(fails: &[crate::OracleFail], case: &str) -> bool { !fails.iter().any(
 
 pub fn special(run: &mut Run, rng: &mut Rng, thorough: bool) {
     let k = if thorough { 30_000 } else { 3_000 };
-    for (kind, size) in [(0u8, 1usize), (0, 1100), (1, 1), (1, 1100), (2, 0), (3, 1), (3, 1100), (4, 1), (4, 1100)] { run_flood(run, kind, k, size); }
+    for (kind, size) in [(0u8, 1usize), (0, 1100), (1, 1), (1, 1100), (3, 1), (3, 1100), (4, 1), (4, 1100)] { run_flood(run, kind, k, size); }
+    run_flood(run, 2, 20_000, 0);                          // long enough that the constant cap on channels passes the linear bound while per-OPEN growth would not (each ordered OPEN on a new stream also leaves an `InboundStream` ≈ 470 B, ≤ 65 536 of them)
+    // compared: 1030 DCEP OPENs on distinct streams in one session — the model and the code must refuse the same ones
+    {
+        let pk: Vec<Vec<u8>> = (0..1030u32).map(|k| { let mut p = header(0); chunk(&mut p, 0, 7, &data_value(1 + k, k as u16, 0, 50, &[3, 0, 0, 0, 0, 0, 0, 0, 0, 1, 0, 0, b'l'])); crc_fix(&mut p); p }).collect();
+        run_session(run, rng, false, false, Some((1, pk)), true);
+    }
     run_flood(run, 5, 3_400, 1);                           // 68 000 in-order messages on one ordered channel: SSN wrap-around
     let n = if thorough { 30_000 } else { 1_500 };
     for i in 0..n { run_session(run, rng, i % 5 == 4, false, None, true); }   // (`new_verif_link` now always hands out a New association)
